@@ -24,6 +24,8 @@ DURS = [0.0, 0.05, 0.1, 0.3, 0.35, 1.0, 3.0]
 
 BAD = st.one_of(
     st.fixed_dictionaries({"v": st.just("bytes"), "hex": st.binary(min_size=0, max_size=12).map(bytes.hex)}),
+    # short payloads a broker may legitimately deliver: empty, "-1", "0", "null", "{}", "[]"
+    st.fixed_dictionaries({"v": st.just("bytes"), "hex": st.sampled_from([b"", b"-1", b"0", b"null", b"{}", b"[]", b"-1\n"]).map(bytes.hex)}),
     st.fixed_dictionaries({"v": st.just("truncate"), "keep": st.integers(0, 60)}),
     st.fixed_dictionaries({"v": st.sampled_from(["labels_list", "no_task_name", "args_not_list", "bad_label_type",
                                                  "unparsable_label", "not_object", "null"])}),
@@ -36,7 +38,7 @@ def message(kinds=("async", "async", "async", "sync", "bad", "unknown"),
     def build(d: Dict[str, Any]) -> Dict[str, Any]:
         if d["kind"] != "bad":
             d.pop("bad")
-        if not d["cleanup"] or d["kind"] not in ("async", "shared", "late"):
+        if not d["cleanup"] or d["kind"] not in ("async", "shared", "late", "dyn"):
             d.pop("cleanup")
         return d
 
